@@ -99,6 +99,22 @@ STRENGTHENED = """
 | C17-c (duplicate check by key prefix) | a refused fresh registration was only counted (the statement does not demand success) | refusing a never-registered (owner, serial) *with the reason "certificate exists"* is flagged: uniqueness is per pair |
 | C17-d (owner = Issuer CN) | all generated certificates were self-signed | certificates issued by one account naming another, submitted by either |
 | C19-c (adjacent duplicates only) / C19-d (cpu truncated to 32 bits) | duplicates were generated adjacent; no value beyond 2^32 with in-range low bits | non-adjacent duplicate names in 3-5 groups; values = in-range + 2^16 / 2^32 / 2^48; excess in a later resource entry |
+| C05-e (deposit into an exhausted account) | the equivalences held; nothing said that an ended account keeps nothing | C05: an escrow account that is no longer open holds no balance |
+| C05-f (dseq parsed with Atoi) | no dseq beyond 2^63 | dseq pool gains 2^63-1, 2^63, 2^64-1 |
+| C06-e (serial "010" read as octal) | serials were only spelled as plain decimals; the scope of a revocation was "the owner's certificates" | zero-padded, signed and hexadecimal spellings; a revocation may change only the certificate whose serial is the decimal reading of what it names; serials 8, 10, 16 |
+| C06-f (close-bid through an ended bid) | the change stays inside the named group | a provider action naming a bid that already ended (closed/lost) may change nothing |
+| C08-e (withdrawn attestation value survives) | the oracle read attestations from the store, as the changed code does | attestations and provider declarations are modelled from the successful transactions alone; messages list attributes in any order; correcting re-signatures are generated |
+| C09-f (first vs last commonName) | subjects had one commonName | registered certificates whose subject carries the victim's address first and the owner's last |
+| C10-e (ingress rule copy) | the only non-HTTP expose was 8080 -> 8080 | container port 80 published as 8080, 8000 published as 80, port without "as" |
+| C13-e (stops on a competitor's bid-closed) | no events about competitors' bids | noise events now include a competitor's bid created / closed on the same order, in both layers |
+| C13-f (start-up query in the background) | **the check hung**: a released Layer-2 injector task kept spinning when the scenario returned early | injector told to stop before goroutines are released; per-run watchdog in the driver (exit 2, never a verdict); then caught as second-bid-same-order |
+| C14-f (hostname release list overwritten by an update) | every manifest version asked for the same hostname | every second version swaps the hostname; after close all hostnames ever asked for must be free |
+| C15-e (circular backlog loses the wrapped part) | backlogs never reached 16 | publish bursts of 4-33 events against slow readers in a quarter of the Layer-1 runs |
+| C15-f (goroutine per chain result) | events/publish.go was not under the scheduler | new Layer-2 scenario: events.publishEvents runs as a simulated task on a filled subscription channel (transaction, failed-transaction and block results); per-stream order and exactly-once at every subscriber |
+| C16-f (bid-closed for lost bids) | the oracle tolerated a bid-closed event for a bid that became lost | tolerance removed: the unchanged code emits none and "lost" is not "closed" |
+| C17-e (int64 fast path when listing) | no serial in [2^63, 2^64) | serials 2^31, 2^32, 2^63-1, 2^63, 2^64-1 |
+| C19-f (cached params) | parameters never changed after genesis | governance parameter change (Subspace.Update of the minimum deposit, as the parameter-change proposal handler does) as a block-level event; the oracle follows the new minimum |
+| C20-f (stale manifest after a roll-back) | every update was a new manifest | 30 % of updates return to the manifest before the current one |
 | C20-a (wait on Done()) / C10-b (updates dropped during fetch) | deployment-closed rarely hit an in-flight fetch; fetch answers were always computed at completion time; no submission of the previous version | close is 4x more likely while a fetch is in flight; 40 % of fetch answers reflect the state at issue time; new submission kind "previous-version" |
 """
 
